@@ -1,6 +1,7 @@
 package cond
 
 import (
+	"context"
 	"database/sql"
 	"encoding/json"
 	"errors"
@@ -24,17 +25,21 @@ type Row struct {
 	B         *int64
 	S         *string
 	M         int64
+	Ora       *int64 `gorm:"column:ora"`   // mirrors a (column name containing "or")
+	Bandb     *int64 `gorm:"column:bandb"` // mirrors b (column name containing "and")
 	DeletedAt gorm.DeletedAt
 }
 
 func (Row) TableName() string { return "rows" }
 
 type RowP struct {
-	ID int64 `gorm:"primaryKey"`
-	A  *int64
-	B  *int64
-	S  *string
-	M  int64
+	ID    int64 `gorm:"primaryKey"`
+	A     *int64
+	B     *int64
+	S     *string
+	M     int64
+	Ora   *int64 `gorm:"column:ora"`
+	Bandb *int64 `gorm:"column:bandb"`
 }
 
 func (RowP) TableName() string { return "rowps" }
@@ -191,14 +196,14 @@ func (e *Env) Seed(t []TRow, soft bool) error {
 			if r.Del {
 				d = delStamp
 			}
-			if _, err := tx.Exec("INSERT INTO rows(id,a,b,s,m,deleted_at) VALUES(?,?,?,?,?,?)", r.ID, a, b, s, r.M, d); err != nil {
+			if _, err := tx.Exec("INSERT INTO rows(id,a,b,s,m,deleted_at,ora,bandb) VALUES(?,?,?,?,?,?,?,?)", r.ID, a, b, s, r.M, d, a, b); err != nil {
 				return err
 			}
 		} else {
 			if r.Del {
 				continue
 			}
-			if _, err := tx.Exec("INSERT INTO rowps(id,a,b,s,m) VALUES(?,?,?,?,?)", r.ID, a, b, s, r.M); err != nil {
+			if _, err := tx.Exec("INSERT INTO rowps(id,a,b,s,m,ora,bandb) VALUES(?,?,?,?,?,?,?)", r.ID, a, b, s, r.M, a, b); err != nil {
 				return err
 			}
 		}
@@ -272,6 +277,8 @@ type Fin struct {
 	Allow    string   `json:"allow"` // "", "config", "session"
 	PK       int64    `json:"pk"`    // model primary key (first/update/delete), 0 = none
 	Extra    []string `json:"extra,omitempty"`
+	Prior    string   `json:"prior,omitempty"` // the chain value already ran count | noop_updates | find before ...
+	Clone    string   `json:"clone,omitempty"` // ... it was derived again through session | withctx | debug
 }
 
 // Run executes chain+finisher on a fresh chain from e.DB and observes.
@@ -319,6 +326,32 @@ func (e *Env) Run(chain []Unit, fin Fin, soft bool) (Obs, error) {
 			return &Row{ID: pk}
 		}
 		return &RowP{ID: pk}
+	}
+	if fin.Prior != "" {
+		tx = tx.Model(model(0))
+		switch fin.Prior {
+		case "count":
+			var n int64
+			tx.Count(&n)
+		case "noop_updates":
+			tx.Updates(map[string]interface{}{})
+		case "find":
+			if soft {
+				var out []Row
+				tx.Find(&out)
+			} else {
+				var out []RowP
+				tx.Find(&out)
+			}
+		}
+		switch fin.Clone {
+		case "session":
+			tx = tx.Session(&gorm.Session{})
+		case "withctx":
+			tx = tx.WithContext(context.Background())
+		case "debug":
+			tx = tx.Debug()
+		}
 	}
 	e.Rec.Reset()
 	var res *gorm.DB
